@@ -31,6 +31,10 @@ type Program struct {
 	privSize     int
 	sharedSize   int
 	usesDouble   bool
+
+	hooks *dialectHooks // evaluator-side dialect hooks (hlsl_ext.go); nil for GLSL
+	hl    *hlslState    // HLSL dialect state (hlsl_*.go)
+	msl   *mslState     // MSL dialect state (msl_*.go)
 }
 
 // Parse tokenizes, parses, resolves and type-checks src.  The error is an
@@ -49,8 +53,10 @@ func Parse(d Dialect, src string) (prog *Program, err error) {
 	switch d {
 	case GLSL:
 		return parseGLSL(src), nil
-	case MSL, HLSL:
-		return nil, &UnsupportedError{Dialect: d, What: "dialect not implemented yet"}
+	case HLSL:
+		return parseHLSL(src), nil
+	case MSL:
+		return parseMSL(src), nil
 	}
 	return nil, fmt.Errorf("ctext: unknown dialect %d", int(d))
 }
@@ -115,6 +121,11 @@ type BlockInfo struct {
 	ReadOnly bool
 	Size     int // bytes of the fixed-size part
 	Members  []MemberInfo
+	// MSL: address space of the buffer argument ("device", "constant") and
+	// the spelled type of the referenced object; Name is the argument name,
+	// Instance the entry point, Class 'b' ([[buffer(n)]]), Binding n or -1.
+	Space string
+	Type  string
 }
 
 // GlobalInfo describes a module-scope variable.
@@ -173,6 +184,12 @@ func memberInfo(name string, t *Type, off int, l *TypeLayout) MemberInfo {
 
 // Blocks lists the interface blocks in declaration order.
 func (p *Program) Blocks() []BlockInfo {
+	if p.hl != nil {
+		return p.hlslBlocks()
+	}
+	if p.msl != nil {
+		return p.mslBlocks()
+	}
 	var out []BlockInfo
 	for _, b := range p.blocks {
 		bi := BlockInfo{Name: b.Name, Instance: b.Instance, Class: b.Class, Binding: b.Binding, Layout: b.Layout, Size: b.Size,
@@ -189,7 +206,7 @@ func (p *Program) Blocks() []BlockInfo {
 func (p *Program) Globals() []GlobalInfo {
 	var out []GlobalInfo
 	for _, g := range p.globals {
-		out = append(out, GlobalInfo{Name: g.Name, Type: g.T.String(), Storage: g.Storage, HasInit: g.Init != nil})
+		out = append(out, GlobalInfo{Name: g.Name, Type: p.ts(g.T), Storage: g.Storage, HasInit: g.Init != nil})
 	}
 	return out
 }
@@ -198,9 +215,9 @@ func (p *Program) Globals() []GlobalInfo {
 func (p *Program) Functions() []FuncInfo {
 	var out []FuncInfo
 	for _, f := range p.funcs {
-		fi := FuncInfo{Name: f.Name, Ret: f.Ret.String(), HasBody: f.Body != nil, UsesBarrier: f.hasBarrier}
+		fi := FuncInfo{Name: f.Name, Ret: p.ts(f.Ret), HasBody: f.Body != nil, UsesBarrier: f.hasBarrier}
 		for _, prm := range f.Params {
-			fi.Params = append(fi.Params, ParamInfo{Name: prm.Name, Type: prm.T.String(), Dir: prm.Dir})
+			fi.Params = append(fi.Params, ParamInfo{Name: prm.Name, Type: p.ts(prm.T), Dir: prm.Dir})
 		}
 		out = append(out, fi)
 	}
